@@ -2,7 +2,7 @@
 
 use crate::{announce, guarded, is_skipped};
 use brush_interactive::highlighting::highlight_command;
-use bvcommon::runner::{enumerate, explore, replay_case, Ctx, Layer, LayerReport, Verdict};
+use bvcommon::runner::{enumerate, explore_par, replay_case, Ctx, Layer, LayerReport, Verdict};
 use proptest::prelude::*;
 use serde::{Deserialize, Serialize};
 
@@ -132,11 +132,12 @@ pub fn fragment_lines(max_frag: usize) -> BoxedStrategy<Line> {
 
 pub fn run(ctx: &Ctx) -> Vec<LayerReport> {
     let mut out = vec![];
-    let max = ctx.tier.pick(3, 4);
+    let max = ctx.tier.pick(3, 5);
     let expected: u64 = (0..=max).map(|l| (ALPHABET.len() as u64).pow(l as u32)).sum();
     out.push(enumerate(&Hl { name: "exhaustive" }, all_lines(max), ctx, true, expected));
-    let n = ctx.tier.pick(20_000, 400_000);
-    out.push(explore(&Hl { name: "fragments" }, fragment_lines(ctx.tier.pick(8, 14)), n, ctx));
+    let n = ctx.tier.pick(150_000, 2_000_000);
+    let fl = ctx.tier.pick(8, 14);
+    out.push(explore_par(&Hl { name: "fragments" }, || fragment_lines(fl), n, ctx));
     out
 }
 
